@@ -112,19 +112,20 @@ class DSDLDefinition(ReadableDSDLFile):
         # but we do it second because it reads the filesystem.
         if not dsdl_path.is_absolute():
             for path_to_root in valid_dsdl_roots:
-                path_to_root_parent = path_to_root
-                while path_to_root_parent != path_to_root_parent.parent:
-                    # Weld together and check only if the root's last part is the same name as the target's first part.
-                    # yes:
-                    #     path/to/root + root/then/Type.1.0.dsdl <- /root == root/
-                    # no:
-                    #     path/to/not_root + root/then/Type.1.0.dsdl <- /not_root != root/
-                    if (
-                        path_to_root_parent.parts[-1] == dsdl_path.parts[0]
-                        and (path_to_root_parent.parent / dsdl_path).exists()
-                    ):
-                        return path_to_root_parent
-                    path_to_root_parent = path_to_root_parent.parent
+                # Weld together and check only if the root's last part is the same name as the target's first part.
+                # yes:
+                #     path/to/root + root/then/Type.1.0.dsdl <- /root == root/
+                # no:
+                #     path/to/not_root + root/then/Type.1.0.dsdl <- /not_root != root/
+                # Only the root itself is considered: a directory above it is not a root namespace directory, so
+                # welding at that level would yield a root that is not among the valid ones (and would hide a valid
+                # root name that appears further down the target path, which the next inference finds).
+                if (
+                    len(path_to_root.parts) > 0
+                    and path_to_root.parts[-1] == dsdl_path.parts[0]
+                    and (path_to_root.parent / dsdl_path).exists()
+                ):
+                    return path_to_root
 
         # INFERENCE 4: A weaker, but valid inference is when the target path is a child of a known root folder name.
         # This is only allowed if dsdl roots are top-level namespace names and not paths.
